@@ -26,11 +26,47 @@ SANITISE_CALLS = {"sorted", "np.sort", "numpy.sort", "np.unique", "numpy.unique"
 SANITISE_METHODS = {"max", "min", "sum", "any", "all", "mean", "argmax", "argmin"}
 
 
+def _simple_callee(c: ast.Call) -> Optional[str]:
+    fn = c.func
+    if isinstance(fn, ast.Name):
+        return fn.id
+    if isinstance(fn, ast.Attribute) and isinstance(fn.value, ast.Name) and fn.value.id in ("self", "cls"):
+        return fn.attr
+    return None
+
+
+def returning_listing_order(idx, relpaths) -> Set[str]:
+    """Names of the functions / methods of the given modules whose *return value* is a sequence in directory-listing order
+    (a listing that reaches a `return` without passing a sanitiser), computed to a fixpoint so that wrappers of wrappers count."""
+    from .rules.common import fctx
+    funcs = [f for f in idx.all_functions() if f.module.relpath in relpaths]
+    tainted: Set[str] = set()
+    for _ in range(4):
+        grew = False
+        for f in funcs:
+            if f.name in tainted:
+                continue
+            cfg, du, pm = fctx(f)
+            ot = OrderTaint(f.node, du, extra_sources=tainted)
+            if not ot.sources:
+                continue
+            for n, d in cfg.g.nodes(data=True):
+                st = d["stmt"]
+                if isinstance(st, ast.Return) and st.value is not None and ot.tainted(st.value, n):
+                    tainted.add(f.name)
+                    grew = True
+                    break
+        if not grew:
+            break
+    return tainted
+
+
 class OrderTaint:
-    def __init__(self, func: ast.AST, du: DefUse):
+    def __init__(self, func: ast.AST, du: DefUse, extra_sources: Optional[Set[str]] = None):
         self.func = func
         self.du = du
         self.cfg = du.cfg
+        self.extra_sources: Set[str] = set(extra_sources or ())
         self._memo: Dict[Tuple[int, int], bool] = {}
         self._active: Set[Tuple[int, int]] = set()
         self.sources: List[ast.Call] = []
@@ -39,9 +75,15 @@ class OrderTaint:
                 self.sources.append(n)
 
     @staticmethod
-    def is_source(c: ast.Call) -> bool:
+    def is_listing_call(c: ast.Call) -> bool:
+        cn = call_name(c)
+        return cn in SOURCES or (isinstance(c.func, ast.Attribute) and c.func.attr in SOURCE_METHODS)
+
+    def is_source(self, c: ast.Call) -> bool:
         cn = call_name(c)
         if cn in SOURCES:
+            return True
+        if self.extra_sources and _simple_callee(c) in self.extra_sources:
             return True
         if isinstance(c.func, ast.Attribute) and c.func.attr in SOURCE_METHODS:
             # Path(...).glob / some_path.iterdir — any receiver (glob.glob itself is in SOURCES)
